@@ -370,4 +370,34 @@ theorem parseQuantity_ind (q : List Tok) (h : quantCore q = true) (s : BP α) :
 theorem parseQuantity_indA (q : List Tok) (h : quantCore q = true) : IndA (parseQuantity (α := α) q) :=
   ⟨parseQuantity_ind q h⟩
 
+/-- a parser that does not depend on the extension set does not change it either -/
+theorem Ind.ext_eq {β : Type} {m : P α β} {s : BP α} (h : Ind m s) : (m s).2.ext = s.ext := by
+  have := h.ext s.ext
+  rw [BP.withExt_self] at this
+  have h2 := congrArg (fun r => r.2.ext) this
+  exact h2
+
+/-- with ADVANCED_UNITS off `parse_quantity` is the regular quantity parser run on the sub-block -/
+theorem parseQuantity_advanced_off (q : List Tok) (s : BP α) (h : s.ext.has Gen.EXT_ADVANCED_UNITS = false) :
+    parseQuantity q s =
+      (let s' := ((if q.isEmpty then panicWith "parse_quantity: empty tokens" else pure () : P α Unit) s).2
+       let r := parseRegularQuantity ({ s' with toks := q, cur := 0 } : BP α)
+       (r.1, { r.2 with toks := s'.toks, cur := s'.cur })) := by
+  rw [parseQuantity_run]
+  dsimp only
+  have hp : IndA (if q.isEmpty then panicWith "parse_quantity: empty tokens" else pure () : P α Unit) := by
+    ind_auto
+  have he := (hp.all s).ext_eq
+  have hi : ∀ s0 : BP α, s0.ext.has Gen.EXT_ADVANCED_UNITS = false →
+      parseQuantityInner (α := α) s0 = parseRegularQuantity s0 := by
+    intro s0 h0
+    unfold parseQuantityInner
+    rw [P_bind_run, P_bind_run]
+    have hx : hasExt (α := α) Gen.EXT_ADVANCED_UNITS s0 = (false, s0) := by
+      show (s0.ext.has Gen.EXT_ADVANCED_UNITS, s0) = _
+      rw [h0]
+    rw [hx]
+    rfl
+  rw [hi _ (by show (Ext.has _ _) = false; rw [he]; exact h)]
+
 end Cook
